@@ -1855,9 +1855,14 @@ impl DtlsInner {
                             (&keys.server_write_key, &keys.server_write_iv)
                         };
                         // Never reuse a record sequence number (AEAD nonce) under one key:
-                        // once connected, application records draw from `write_seq`.
-                        let connected = matches!(*self.state.lock(), DtlsState::Connected(..));
-                        let sequence_number = if connected {
+                        // once the handshake has finished, the counter of this epoch
+                        // lives in `write_seq` (application records draw from it) and
+                        // `ctx.sequence_number` is stale. That stays so when the state
+                        // has meanwhile left Connected (the peer's close_notify arrived
+                        // first), so ask for the hand-over, not for the current state.
+                        let handed_over = ctx.epoch != 0
+                            && self.write_epoch.load(Ordering::SeqCst) == ctx.epoch;
+                        let sequence_number = if handed_over {
                             self.write_seq.fetch_add(1, Ordering::SeqCst)
                         } else {
                             let seq = ctx.sequence_number;
